@@ -42,8 +42,10 @@ CONSTANTS
   Msgs,        \* [Side -> Seq([ch |-> Nat, n |-> Nat])] messages each side's application submits
   InitTsnA, InitTsnB,   \* sets of initial TSNs
   MaxRtx, MaxT1, Win,
+  Rwnd,        \* receive window in chunks (buffered out-of-order chunks use it up); a large value switches it off
+  DelaySack,   \* TRUE: an in-order DATA chunk may be acknowledged later (delayed-SACK timer)
   \* Deviations (declared in SctpOps): subset of {"SetupOverwrite", "DataBeforeEstablished",
-  \*   "FwdPlainCompare", "AdvPointWrongSpace", "FwdNotRetransmitted"}
+  \*   "FwdPlainCompare", "AdvPointWrongSpace", "FwdNotRetransmitted", "PartialAbandon", "StaleSackUpdatesRwnd"}
   NetMode, Budget,
   Props        \* properties whose rules are switched on
 
@@ -71,17 +73,22 @@ VARIABLES
   advPt,     \* [Side -> Advanced.Peer.Ack.Point]
   fwd,       \* [Side -> last FORWARD-TSN sent: [on, fr (stream / ssn of the skipped message), n]]
   net, wire, held, lastDel, cnt, faults, budget,
-  hole       \* [Side -> relative TSNs of that side's DATA chunks every transmission of which is lost]
+  hole,      \* [Side -> relative TSNs of that side's DATA chunks every transmission of which is lost]
+  peerW,     \* [Side -> the peer's advertised window as last learnt (chunks)]
+  since,     \* [Side -> new chunks injected since the last SACK that was taken into account]
+  sackDue    \* [Side -> a delayed SACK is pending]
 
 vars == <<st, t1, t1cnt, itsn, answered, next, rx, sentQ, outQ, sub, ssnOut, deliv, opens, ackPt, advPt, fwd,
-          net, wire, held, lastDel, cnt, faults, budget, hole>>
+          net, wire, held, lastDel, cnt, faults, budget, hole, peerW, since, sackDue>>
 
 Ordered == [c \in ChanIds |-> Chans[c].ord]
 
 Kinds == {"INIT", "IACK", "CECHO", "CACK", "DATA", "SACK", "FWD", "GSACK"}
 \* o: ordinal among the packets of this kind and direction; g: for a SACK that carries gap blocks, its
 \* ordinal among such SACKs (0 otherwise) - a second content address for the same packet
-Pkt(k, src, tsn, fr, gaps) == [k |-> k, src |-> src, tsn |-> tsn, fr |-> fr, gaps |-> gaps, o |-> 0, g |-> 0]
+Pkt(k, src, tsn, fr, gaps) == [k |-> k, src |-> src, tsn |-> tsn, fr |-> fr, gaps |-> gaps, o |-> 0, g |-> 0, w |-> 0]
+\* advertised receive window (INIT, INIT-ACK, SACK)
+WithW(p, w) == [p EXCEPT !.w = w]
 \* a DATA packet is addressed by its TSN relative to the sender's initial TSN and its transmission number
 DataPkt(src, tsn, fr, n) == [Pkt("DATA", src, tsn, fr, {}) EXCEPT !.o = n]
 \* a SACK by the cumulative TSN it carries, relative to the initial TSN of the side it acknowledges
@@ -124,7 +131,9 @@ NetSame == UNCHANGED <<net, wire, held, lastDel, cnt>>
 \* fifo mode: retransmission timers are long compared with the network latency, so they fire only
 \* when nothing is in flight (a packet taken aside by Hold is delayed beyond the timer)
 TimersMayFire == wire["A"] = <<>> /\ wire["B"] = <<>>
-NoFault == UNCHANGED <<faults, budget, hole>>
+NoFaultW == UNCHANGED <<faults, budget, hole>>
+WinSame == UNCHANGED <<peerW, since, sackDue>>
+NoFault == NoFaultW /\ WinSame
 PrSame == UNCHANGED <<ackPt, advPt, fwd>>
 
 ---------------------------------------------------------------------------
@@ -153,6 +162,9 @@ Init ==
   /\ faults = <<>>
   /\ budget = Budget
   /\ hole = [s \in Side |-> {}]
+  /\ peerW = [s \in Side |-> 0]
+  /\ since = [s \in Side |-> 0]
+  /\ sackDue = [s \in Side |-> FALSE]
 
 \* take the messages a handler step produced for the application
 Deliver(s, r) ==
@@ -169,7 +181,7 @@ SendInit ==
   /\ \E t \in InitTsnA :
        /\ itsn' = [itsn EXCEPT !["A"] = t]
        /\ next' = [next EXCEPT !["A"] = t]
-       /\ NetSend("A", Pkt("INIT", "A", t, NoFrag, {}))
+       /\ NetSend("A", WithW(Pkt("INIT", "A", t, NoFrag, {}), Rwnd))
   /\ st' = [st EXCEPT !["A"] = "Connecting"]
   /\ t1' = [t1 EXCEPT !["A"] = "Init"]
   /\ ackPt' = [ackPt EXCEPT !["A"] = Dec(next'["A"], M)]
@@ -182,7 +194,7 @@ T1Expire ==
   /\ t1["A"] # "None" /\ t1cnt < MaxT1
   /\ t1cnt' = t1cnt + 1
   /\ (IF t1["A"] = "Init"
-      THEN NetSend("A", Pkt("INIT", "A", itsn["A"], NoFrag, {}))
+      THEN NetSend("A", WithW(Pkt("INIT", "A", itsn["A"], NoFrag, {}), Rwnd))
       ELSE NetSend("A", Pkt("CECHO", "A", 0, NoFrag, {})))
   /\ UNCHANGED <<st, t1, itsn, answered, next, rx, sentQ, outQ, sub, ssnOut, deliv, opens>> /\ PrSame /\ NoFault
 
@@ -190,8 +202,8 @@ RecvInit(p) ==
   /\ p \in Avail("B") /\ p.k = "INIT"
   /\ (IF answered /\ "SetupOverwrite" \notin Deviations
       THEN \* RFC 4960 5.2.2: answer again, leave the TCB alone
-           /\ NetRecv("B", p, <<Pkt("IACK", "B", itsn["B"], NoFrag, {})>>)
-           /\ UNCHANGED <<itsn, next, rx, answered, ackPt, advPt>>
+           /\ NetRecv("B", p, <<WithW(Pkt("IACK", "B", itsn["B"], NoFrag, {}), Rwnd)>>)
+           /\ UNCHANGED <<itsn, next, rx, answered, ackPt, advPt, peerW>>
       ELSE \E t \in InitTsnB :
            /\ ackPt' = [ackPt EXCEPT !["B"] = Dec(t, M)]
            /\ advPt' = [advPt EXCEPT !["B"] = Dec(t, M)]
@@ -199,20 +211,22 @@ RecvInit(p) ==
            /\ next' = [next EXCEPT !["B"] = t]
            /\ rx' = [rx EXCEPT !["B"].cum = Dec(p.tsn, M), !["B"].has = TRUE]
            /\ answered' = TRUE
-           /\ NetRecv("B", p, <<Pkt("IACK", "B", t, NoFrag, {})>>))
-  /\ UNCHANGED <<st, t1, t1cnt, sentQ, outQ, sub, ssnOut, deliv, opens, fwd>> /\ NoFault
+           /\ peerW' = [peerW EXCEPT !["B"] = p.w]
+           /\ NetRecv("B", p, <<WithW(Pkt("IACK", "B", t, NoFrag, {}), Rwnd)>>))
+  /\ UNCHANGED <<st, t1, t1cnt, sentQ, outQ, sub, ssnOut, deliv, opens, fwd>> /\ NoFaultW /\ UNCHANGED <<since, sackDue>>
 
 RecvInitAck(p) ==
   /\ p \in Avail("A") /\ p.k = "IACK"
   /\ (IF t1["A"] = "Init" \/ "SetupOverwrite" \in Deviations
       THEN /\ rx' = [rx EXCEPT !["A"].cum = Dec(p.tsn, M), !["A"].has = TRUE]
            /\ t1' = [t1 EXCEPT !["A"] = "Cookie"]
+           /\ peerW' = [peerW EXCEPT !["A"] = p.w]
            /\ t1cnt' = 0                                   \* t1_start resets the failure count
            /\ NetRecv("A", p, <<Pkt("CECHO", "A", 0, NoFrag, {})>>)
       ELSE \* RFC 4960 5.2.3: not in COOKIE-WAIT, discard
            /\ NetRecv("A", p, <<>>)
-           /\ UNCHANGED <<rx, t1, t1cnt>>)
-  /\ UNCHANGED <<st, itsn, answered, next, sentQ, outQ, sub, ssnOut, deliv, opens>> /\ PrSame /\ NoFault
+           /\ UNCHANGED <<rx, t1, t1cnt, peerW>>)
+  /\ UNCHANGED <<st, itsn, answered, next, sentQ, outQ, sub, ssnOut, deliv, opens>> /\ PrSame /\ NoFaultW /\ UNCHANGED <<since, sackDue>>
 
 RecvCookieEcho(p) ==
   /\ p \in Avail("B") /\ p.k = "CECHO"
@@ -257,13 +271,15 @@ TransmitNew(s) ==
   /\ st[s] = "Connected"
   /\ outQ[s] # <<>>
   /\ Cardinality(Outstanding(sentQ[s])) < Win
+  /\ peerW[s] > Cardinality(Outstanding(sentQ[s]))      \* transmit(): available = rwnd - flight > 0
+  /\ since' = [since EXCEPT ![s] = @ + 1]
   /\ LET f == Head(outQ[s])
          t == next[s]
      IN /\ sentQ' = [sentQ EXCEPT ![s] = @ \cup {[tsn |-> t, fr |-> f, n |-> 1, acked |-> FALSE, ab |-> FALSE]}]
         /\ next' = [next EXCEPT ![s] = Inc(t, M)]
         /\ NetSend(s, DataPkt(s, t, f, 1))
   /\ outQ' = [outQ EXCEPT ![s] = Tail(@)]
-  /\ UNCHANGED <<st, t1, t1cnt, itsn, answered, rx, sub, ssnOut, deliv, opens>> /\ PrSame /\ NoFault
+  /\ UNCHANGED <<st, t1, t1cnt, itsn, answered, rx, sub, ssnOut, deliv, opens>> /\ PrSame /\ NoFaultW /\ UNCHANGED <<peerW, sackDue>>
 
 Rtx(s) ==
   /\ NetMode = "fifo"            \* in "set" mode the first copy is still deliverable
@@ -325,6 +341,23 @@ ResendFwd(s) ==
   /\ NetSend(s, Pkt("FWD", s, advPt[s], fwd[s].fr, {}))
   /\ UNCHANGED <<st, t1, t1cnt, itsn, answered, next, rx, sentQ, outQ, sub, ssnOut, deliv, opens, ackPt, advPt>> /\ NoFault
 
+AdvW(r) == IF Rwnd > Cardinality(r.rcvd) THEN Rwnd - Cardinality(r.rcvd) ELSE 0
+SackOf(s, r) == WithW(Pkt("SACK", s, r.cum, NoFrag, GapSet(r)), AdvW(r))
+\* the SACK leaves at once, or - only if nothing is buffered out of order and no SACK is pending yet - is
+\* left to the delayed-SACK timer (RFC 4960 6.2: every second packet / gap / duplicate at once)
+SackOrDefer(s, p, r) ==
+  \/ /\ NetRecv(s, p, <<SackOf(s, r)>>)
+     /\ sackDue' = [sackDue EXCEPT ![s] = FALSE]
+  \/ /\ DelaySack /\ r.rcvd = {} /\ ~sackDue[s]
+     /\ NetRecv(s, p, <<>>)
+     /\ sackDue' = [sackDue EXCEPT ![s] = TRUE]
+SackTimer(s) ==
+  /\ sackDue[s]
+  /\ NetSend(s, SackOf(s, rx[s]))
+  /\ sackDue' = [sackDue EXCEPT ![s] = FALSE]
+  /\ UNCHANGED <<st, t1, t1cnt, itsn, answered, next, rx, sentQ, outQ, sub, ssnOut, deliv, opens, peerW, since>>
+  /\ PrSame /\ NoFaultW
+
 \* handle_data.  DATA is only acted on once the association is established.  An endpoint that
 \* has a COOKIE-ECHO outstanding learns from DATA that the peer accepted it (the COOKIE-ACK was
 \* lost or is late): it completes the set-up first, so Open precedes the message.  In any other
@@ -339,15 +372,15 @@ RecvData(s, p) ==
         THEN LET r == RxData(rx[s], p.tsn, p.fr, Ordered)
              IN /\ rx' = [rx EXCEPT ![s] = Clr(r)]
                 /\ Deliver(s, r)
-                /\ NetRecv(s, p, <<Pkt("SACK", s, r.cum, NoFrag, GapSet(r))>>)
+                /\ SackOrDefer(s, p, r)
                 /\ (IF implicitAck
                     THEN /\ st' = [st EXCEPT ![s] = "Connected"]
                          /\ opens' = [opens EXCEPT ![s] = @ + 1]
                          /\ t1' = [t1 EXCEPT ![s] = "None"]
                     ELSE UNCHANGED <<st, opens, t1>>)
         ELSE /\ NetRecv(s, p, <<>>)
-             /\ UNCHANGED <<rx, deliv, st, opens, t1>>
-  /\ UNCHANGED <<t1cnt, itsn, answered, next, sentQ, outQ, sub, ssnOut>> /\ PrSame /\ NoFault
+             /\ UNCHANGED <<rx, deliv, st, opens, t1, sackDue>>
+  /\ UNCHANGED <<t1cnt, itsn, answered, next, sentQ, outQ, sub, ssnOut>> /\ PrSame /\ NoFaultW /\ UNCHANGED <<peerW, since>>
 
 RecvFwd(s, p) ==
   /\ p \in Avail(s) /\ p.k = "FWD"
@@ -357,15 +390,21 @@ RecvFwd(s, p) ==
          r == Drain(RxForward(rx[s], p.tsn, streams), Ordered)
      IN /\ rx' = [rx EXCEPT ![s] = Clr([r EXCEPT !.reasm[p.fr.ch] = <<>>])]
         /\ Deliver(s, r)
-        /\ NetRecv(s, p, <<Pkt("SACK", s, r.cum, NoFrag, GapSet(r))>>)
-  /\ UNCHANGED <<st, t1, t1cnt, itsn, answered, next, sentQ, outQ, sub, ssnOut, opens>> /\ PrSame /\ NoFault
+        /\ SackOrDefer(s, p, r)
+  /\ UNCHANGED <<st, t1, t1cnt, itsn, answered, next, sentQ, outQ, sub, ssnOut, opens>> /\ PrSame /\ NoFaultW /\ UNCHANGED <<peerW, since>>
 
 RecvSack(s, p) ==
   /\ p \in Avail(s) /\ p.k = "SACK"
   /\ sentQ' = [sentQ EXCEPT ![s] = ApplySack(@, p.tsn, p.gaps)]
   /\ ackPt' = [ackPt EXCEPT ![s] = SerMax(p.tsn, @)]
+  \* the advertised window of a SACK that is older than one already processed says nothing about the
+  \* peer's buffer now (RFC 4960 6.2.1 D-i); the pinned code stores it: deviation "StaleSackUpdatesRwnd"
+  /\ (IF TsnGT(ackPt[s], p.tsn) /\ "StaleSackUpdatesRwnd" \notin Deviations
+      THEN UNCHANGED <<peerW, since>>
+      ELSE /\ peerW' = [peerW EXCEPT ![s] = p.w]
+           /\ since' = [since EXCEPT ![s] = 0])
   /\ NetRecv(s, p, <<>>)
-  /\ UNCHANGED <<st, t1, t1cnt, itsn, answered, next, rx, outQ, sub, ssnOut, deliv, opens, advPt, fwd>> /\ NoFault
+  /\ UNCHANGED <<st, t1, t1cnt, itsn, answered, next, rx, outQ, sub, ssnOut, deliv, opens, advPt, fwd, sackDue>> /\ NoFaultW
 
 ---------------------------------------------------------------------------
 (* Explicit faults (fifo mode): each costs one unit of budget and is       *)
@@ -376,7 +415,8 @@ FaultRec(d, p, kind, after) ==
   [dir |-> d, k |-> p.k, o |-> p.o, t |-> RelTsn(p), g |-> p.g, kind |-> kind,
    ak |-> after.k, ao |-> after.o, at |-> after.t, ag |-> after.g]
 NoAfter == [k |-> "NONE", o |-> 0, t |-> 0, g |-> 0]
-ProtoSame == UNCHANGED <<st, t1, t1cnt, itsn, answered, next, rx, sentQ, outQ, sub, ssnOut, deliv, opens, ackPt, advPt, fwd>>
+ProtoSame == UNCHANGED <<st, t1, t1cnt, itsn, answered, next, rx, sentQ, outQ, sub, ssnOut, deliv, opens, ackPt, advPt, fwd,
+                         peerW, since, sackDue>>
 
 Drop(d) ==
   /\ NetMode = "fifo" /\ budget > 0 /\ wire[d] # <<>>
@@ -428,7 +468,7 @@ Fault == \E d \in Side : Drop(d) \/ Dup(d) \/ Hold(d, TRUE) \/ Hold(d, FALSE) \/
 Proto ==
   \/ SendInit \/ T1Expire
   \/ \E d \in Side : HoleDrop(d)
-  \/ \E s \in Side : AppSend(s) \/ TransmitNew(s) \/ Rtx(s) \/ Abandon(s) \/ Advance(s) \/ ResendFwd(s)
+  \/ \E s \in Side : AppSend(s) \/ TransmitNew(s) \/ Rtx(s) \/ Abandon(s) \/ Advance(s) \/ ResendFwd(s) \/ SackTimer(s)
   \/ \E s \in Side : \E p \in Avail(s) :
         \/ RecvData(s, p) \/ RecvSack(s, p) \/ RecvFwd(s, p)
         \/ (s = "B" /\ (RecvInit(p) \/ RecvCookieEcho(p)))
@@ -480,6 +520,8 @@ ConsecutiveTsn ==
   Rule("C13", \A s \in Side : \A x \in sentQ[s] :
                  itsn[s] # M /\ x.tsn # next[s] /\ ~TsnGT(x.tsn, next[s]) /\ ~TsnGT(itsn[s], x.tsn))
 WindowRespected == Rule("C13", \A s \in Side : Cardinality(Outstanding(sentQ[s])) <= Win)
+\* between two SACKs that count, at most the advertised window (+ one packet) of new data
+NewDataWithinWindow == Rule("C13", \A s \in Side : since[s] <= peerW[s] + 1)
 
 TypeOK ==
   /\ \A s \in Side : st[s] \in {"New", "Connecting", "Connected", "Closed"}
